@@ -251,9 +251,16 @@ def fileCommitAlloc (a : Alloc) (st : TxAlloc) (updated : Bool) : Option (Alloc 
       if ovf > 0 then ((if metaEnd > dataEnd then metaEnd - ovf else dataEnd), metaEnd - ovf) else (dataEnd, metaEnd)
     let (dataList, dfreed) := releaseOverflow newData a1.maxPages dataEnd1
     let dataEnd2 := dataEnd1 - dfreed
-    let metaEnd2 := if dfreed > 0 ∧ metaEnd1 ≥ dataEnd2 then dataEnd2 else metaEnd1
+    let metaEnd2 := if dfreed > 0 ∧ metaEnd1 ≤ dataEnd1 ∧ metaEnd1 ≥ dataEnd2 then dataEnd2 else metaEnd1
     some (a1, st1, { updated := true, allocRegions := regs, dataEnd := dataEnd2, metaEnd := metaEnd2,
                      metaList := metaList, dataList := dataList, overflowFreed := ovf })
+
+/-- `allocator.absorbOverflowArea` (run when the allocator state is read at open and after the limit
+    was raised or removed): if the data area may grow, it has to grow behind the meta pages of the
+    overflow area, so the data end marker is raised to the meta end marker -/
+def Alloc.absorbOverflow (a : Alloc) : Alloc :=
+  if a.data.endMarker < a.mta.endMarker ∧ (a.maxPages = 0 ∨ a.data.endMarker < a.maxPages)
+  then { a with data := { a.data with endMarker := a.mta.endMarker } } else a
 
 /-- `allocator.Commit` -/
 def Alloc.commit (a : Alloc) (c : AllocCommit) : Alloc :=
